@@ -464,6 +464,42 @@ func (vc *VC) verifyRun(fn *ssa.Function, fc *FuncContract, key, caseName string
 	for _, fv := range fn.FreeVars {
 		bind = append(bind, vc.fresh(fv.Type(), fv.Name(), st))
 	}
+	for _, al := range fc.Aliases {
+		if al.Case != caseName {
+			continue
+		}
+		// the second name denotes the same object as the first (in-place use: source == destination)
+		var from Val
+		for i, p := range fn.Params {
+			if p.Name() == al.Param {
+				from = args[i]
+			}
+		}
+		for i, fv := range fn.FreeVars {
+			if fv.Name() == al.Param {
+				from = bind[i]
+			}
+		}
+		if from == nil {
+			panic(specError{"alias: unknown name " + al.Param})
+		}
+		done := false
+		for i, p := range fn.Params {
+			if p.Name() == al.Type {
+				args[i] = from
+				done = true
+			}
+		}
+		for i, fv := range fn.FreeVars {
+			if fv.Name() == al.Type {
+				bind[i] = from
+				done = true
+			}
+		}
+		if !done {
+			panic(specError{"alias: unknown name " + al.Type})
+		}
+	}
 	top := &Frame{fn: fn, env: map[ssa.Value]Val{}, ghost: map[string]Val{}}
 	for i, p := range fn.Params {
 		top.env[p] = args[i]
